@@ -281,6 +281,14 @@ theorem key_derivation_spec (H : List Nat → List Nat) (salt pw16 blockKey : Li
   · unfold standardKey standardHFinal; rw [spin_eq_spec]
   · unfold agileKey; rw [spin_eq_spec]
 
+/-- *the hash is a function* (what lets the models treat `hashing` as `H : bytes → digest`): `hashing`
+allocates its hash objects on every call — there is no package-level hash state that consecutive or
+concurrent key derivations (Encrypt/Decrypt/OpenReader in other goroutines) could share — and
+`standardXORBytes` returns a fresh slice without writing to its arguments, so the final hash feeds X1
+and X2 unchanged. Both are facts regenerated from crypt.go; the concurrent witness (`conc`) and the
+AES-192/256 documents (`stdsyn`) exercise them on the Go code. -/
+theorem hash_is_a_pure_function : hashingPerCall = true ∧ xorBytesPure = true := ⟨rfl, rfl⟩
+
 /-- *gates access* (one step further than `derivation_input_injective`): if the hash is injective
 (collision freeness, the assumption recorded in the trusted base) then for a fixed salt two different
 passwords give different final hashes `hFinal` after all `iterCount` rounds — every round and the
